@@ -27,7 +27,7 @@ RecObs(c) == [empty |-> c.e = 1, crashed |-> c.c = 1,
               pulled |-> c.pl, lens |-> c.ln]
 
 OInit == \E t \in 1..Len(Cases) : tid = t /\ InitWith(ParOf(Cases[t])) /\ hist = <<>>
-ONext == (Probe0 \/ Window \/ Item \/ Finish) /\ UNCHANGED tid
+ONext == (Probe0 \/ Window \/ Item \/ PlainLen \/ PlainItem \/ Finish) /\ UNCHANGED tid
 OSpec == OInit /\ [][ONext]_ovars
 
 \* first row at which the recording departs from the machine (0: none)
@@ -45,8 +45,11 @@ Verdict ==
     (pc = "done") =>
        LET c == Cases[tid]
            o == RecObs(c)
-           lazyOK == IF o.empty \/ o.crashed \/ o.rows = <<>> THEN o.lens = 0
+           lazyOK == IF NavDir = "plain" THEN C_PlainAll(par, o)
+                     ELSE IF o.empty \/ o.crashed \/ o.rows = <<>> THEN o.lens = 0
                      ELSE C_Lazy(par, o, ObsWin(o))
+           lazyR  == IF NavDir = "plain" \/ o.empty \/ o.crashed \/ o.rows = <<>> THEN lazyOK
+                     ELSE C_LazyRelaxed(par, o, ObsWin(o))
            rowsEq == IF c.np = 1          \* np: the sequence was not lazy, pulls not recorded
                      THEN /\ Len(c.r) = Len(ModelRows)
                           /\ \A i \in 1..Len(c.r) : SubSeq(c.r[i], 1, 9) = SubSeq(ModelRows[i], 1, 9)
@@ -54,8 +57,10 @@ Verdict ==
            conform == /\ o.empty = empty /\ o.crashed = Crashed
                       /\ (~Crashed => rowsEq)
        IN PrintT(ToJson([tid |-> tid,
-                         failed |-> IF par.L = Unlimited THEN {} ELSE Failed(C11Clauses(par, o)),
-                         lazy |-> lazyOK,
+                         failed |-> IF par.L = Unlimited \/ NavDir = "plain" THEN {}
+                                    ELSE Failed(C11Clauses(par, o)),
+                         lazy |-> lazyOK /\ (o.crashed => Crashed),   \* "renders and terminates"
+                         lazyr |-> lazyR /\ (o.crashed => Crashed),   \* modulo finding F19
                          conform |-> conform,
                          diff |-> IF Crashed \/ o.crashed THEN 0 ELSE FirstDiff(c.r, ModelRows)]))
 
